@@ -1087,3 +1087,17 @@ impl LocalPeerService {
         }
     }
 }
+
+// verification hook (feature `verif`, add-only): public entry to the private room pull so that two
+// database services can be wired back to back over in-memory channels. Only calls the real function.
+#[cfg(feature = "verif")]
+impl LocalPeerService {
+    pub async fn verif_synchronise_room(
+        room_id: Uid,
+        query_service: &QueryService,
+        peer_service: PeerConnectionService,
+        discret_services: &DiscretServices,
+    ) -> Result<(), crate::Error> {
+        Self::synchronise_room(room_id, query_service, peer_service, discret_services).await
+    }
+}
